@@ -214,6 +214,9 @@ class Eval:
 
     def read_ref(self, env, ref, extra=()):
         """Read the value stored at ref (+ extra path)."""
+        if isinstance(ref, tuple) and ref and ref[0] == "refof":
+            # a reference to a value (a promoted constant, a temporary): reading through it reads the value
+            return self.read_path(ref[1], extra)
         if not (isinstance(ref, tuple) and ref and ref[0] == "ref"):
             return ("deref", ref) if not extra else ("derefp", ref, extra)
         root, path, win = ref[1], tuple(ref[2]) + tuple(extra), ref[3]
@@ -254,6 +257,8 @@ class Eval:
 
     def read_path(self, v, path):
         for p in path:
+            while isinstance(v, tuple) and len(v) == 2 and v[0] == "refof":
+                v = v[1]
             if isinstance(v, Agg):
                 k = p[1] if p[0] in ("f", "i") else None
                 if k is None or (isinstance(k, tuple)):
@@ -352,7 +357,7 @@ class Eval:
             if p == "*":
                 ptr = self.read_ref(env, ref, path)
                 ref, path = ptr, []
-                if not (isinstance(ptr, tuple) and ptr and ptr[0] == "ref"):
+                if not (isinstance(ptr, tuple) and ptr and ptr[0] in ("ref", "refof")):
                     return ptr, None
                 # apply window offset on later index projections
             elif p[0] == "f":
